@@ -263,6 +263,25 @@ func (v ValidationResults) HasErrors() bool {
 	return hasErrors
 }
 
+// the sampler types a rule may name as its downstream sampler, and the ones a
+// destination may name as its sampler
+var downstreamSamplerTypes = []string{
+	"DeterministicSampler", "DynamicSampler", "EMADynamicSampler",
+	"EMAThroughputSampler", "WindowedThroughputSampler", "TotalThroughputSampler",
+}
+var topLevelSamplerTypes = append([]string{"RulesBasedSampler"}, downstreamSamplerTypes...)
+
+// hasSamplerChoice reports whether a sampler block names one of the given
+// sampler types with a definition (possibly empty) rather than a null.
+func hasSamplerChoice(block map[string]any, types []string) bool {
+	for _, t := range types {
+		if _, ok := block[t].(map[string]any); ok {
+			return true
+		}
+	}
+	return false
+}
+
 // Validate checks that the given data is valid according to the metadata.
 // It returns a list of ValidationResults, which is empty if there are no errors.
 // Their Message fields are strings that are suitable for showing to the user.
@@ -640,9 +659,11 @@ func (m *Metadata) ValidateRules(data map[string]any) ValidationResults {
 							Message:  fmt.Sprintf("Sampler %s must be a map, but %v is %T", k, v, v),
 							Severity: Error,
 						})
-					} else if len(sampler) == 0 {
-						// an empty block would leave the sampler factory without a
-						// sampler type, which it can only answer by exiting
+					} else if !hasSamplerChoice(sampler, topLevelSamplerTypes) {
+						// a block without a sampler type (empty, or holding only a
+						// null or one of the helper groups such as Rules) would leave
+						// the sampler factory without a sampler type, which it can
+						// only answer by exiting
 						results = append(results, ValidationResult{
 							Message:  fmt.Sprintf("Sampler %s must specify a sampler", k),
 							Severity: Error,
@@ -652,9 +673,9 @@ func (m *Metadata) ValidateRules(data map[string]any) ValidationResults {
 						rules, _ := rbs["Rules"].([]any)
 						for i, r := range rules {
 							rule, _ := r.(map[string]any)
-							if down, ok := rule["Sampler"].(map[string]any); ok && len(down) == 0 {
+							if down, ok := rule["Sampler"].(map[string]any); ok && !hasSamplerChoice(down, downstreamSamplerTypes) {
 								results = append(results, ValidationResult{
-									Message:  fmt.Sprintf("Sampler %s: rule %d has an empty Sampler block; it must specify a sampler", k, i),
+									Message:  fmt.Sprintf("Sampler %s: rule %d has a Sampler block without a usable sampler; it must specify a sampler", k, i),
 									Severity: Error,
 								})
 							}
